@@ -474,7 +474,7 @@ func runScenario(cfg hx.Config, meta *hx.Meta, r *hx.Rand, sc *scenario, obs *st
 					fs[k] = v
 				}
 				meta.AddDirect(hx.Direct{Class: "c15-site-ill-formed",
-					What: fmt.Sprintf("%s (%s): goderive exits 0, but the call sites of one %s function and the functions generated for them do not type-check together: %s; sites %s", sc.name, cmd, grp.plugin, why, grp.sigsSexp()),
+					What:  fmt.Sprintf("%s (%s): goderive exits 0, but the call sites of one %s function and the functions generated for them do not type-check together: %s; sites %s", sc.name, cmd, grp.plugin, why, grp.sigsSexp()),
 					Files: fs, Cmd: cmd + " && go vet .", Output: hx.Truncate(why+"\n"+g.Out, 3000)})
 			}
 			continue
